@@ -547,6 +547,33 @@ class KernelRun:
             await self.step_op("release", "./plan.py", fn=lambda: wf.find(Step, "./plan.py").release())
             await self.pop()
 
+    async def hold_running_recycled(self):
+        """A RUNNING step opens a hold block and declares a child; its creator runs again (the running step and
+        its child are detached) and declares it again unchanged: it is recycled while its hold block is open and
+        must keep holding the child back until it releases."""
+        r, wf = self.r, self.wf
+        running = await self.q(lambda: self.steps(StepState.RUNNING))
+        if "./plan.py" not in running:
+            return
+        o1, o2 = r.sample(PATHS, 2)
+        if not (await self.define_explicit("./plan.py", "mid", [], [o1], Need.DEFAULT)).startswith("ok"):
+            return
+        if not await self.pop_until("mid"):
+            return
+        await self.step_op("hold", "mid", fn=lambda: wf.find(Step, "mid").hold())
+        if not (await self.define_explicit("mid", "kid", [], [o2], Need.DEFAULT)).startswith("ok"):
+            return
+        await self.pop()
+        await self.step_op("reset_rerun", "./plan.py", fn=lambda: wf.find(Step, "./plan.py").reset_for_rerun())
+        await self.pop()
+        await self.define_explicit("./plan.py", "mid", [], [o1], Need.DEFAULT)
+        for _ in range(r.randint(1, 3)):
+            await self.pop()
+        if r.random() < 0.6:
+            await self.step_op("release", "mid", fn=lambda: wf.find(Step, "mid").release())
+            for _ in range(r.randint(1, 2)):
+                await self.pop()
+
     async def shrink_resources(self):
         """A step that requires two resources is detached (its creator runs again) and declared again
         with only one of them, unchanged otherwise (full recycle) or with another output (node reuse)."""
@@ -1105,7 +1132,8 @@ class KernelRun:
             await self.tx("k reconcile", lambda: wf.reconcile_targets())
 
     SCENARIOS = ("nested_chain", "deferred_wakeup", "resource_race", "detached_completion", "rerole",
-                 "amended_consumer_rerun", "hold_recycle", "shrink_resources", "retarget_optional", "cycle_via_detached")
+                 "amended_consumer_rerun", "hold_recycle", "shrink_resources", "retarget_optional", "cycle_via_detached",
+                 "hold_running_recycled")
 
     async def generate(self, cm, nops: int, scenario: str | None = None):
         """A history: boot, then (in the well-formed stream) one directed scenario with probability
@@ -1138,6 +1166,8 @@ class KernelRun:
                 await self.retarget_optional()
             elif k < 0.76:
                 await self.cycle_via_detached()
+            elif k < 0.80:
+                await self.hold_running_recycled()
         menu = [(self.define, 20), (self.static, 8), (self.declstatic, 5), (self.tree, 4), (self.nglob, 4),
                 (self.amend, 8), (self.recycle_under_glob, 3),
                 (self.confirm, 12), (self.external, 6), (self.pop, 18), (self.run_step, 18),
